@@ -23,6 +23,17 @@ ASSUMPTIONS = ["dimensions are one-axis indexes (the property's domain); common 
 
 @st.composite
 def cases(draw, tier):
+    if draw(st.integers(0, 19)) == 0:
+        # hundreds / thousands of rows, sorted by the first dimension or in blocks of 64 / 1024 identical rows
+        case = draw(Q.large_specs(["count"]))
+        for d in case["dims"]:
+            d["tail"] = []
+            d["extent"] = min(d["extent"], 6)
+            d["common"] = min(d["common"], 6)
+        if draw(st.booleans()):
+            case["dims"].reverse()  # the sorted dimension last
+        case["hollow"] = []
+        return case
     case = draw(base_cases(tier))
     # An explicit entry with NO row ids is not well-formed by C07's standard, but the constructor and validate()
     # accept it and walk() carries guards for it: such a category is matched by no row and must never be presented.
@@ -49,6 +60,9 @@ def check(case, rec):
 
     from catii import ccube
 
+    if case.get("recipe"):
+        rec.note("large recipe case (rows %s)" % case.get("rows"))
+    case = Q.expand(case)
     dense = Q.dense_dims(case)
     N = case["N"]
     commons = [d["common"] for d in case["dims"]]
